@@ -123,11 +123,21 @@ def check_c10(ctx):
         res = process(ctx, p, tag)
         for r in list(res.values())[:1]:
             ctx.add_sample(dict(kind=r["kind"], input=r["input"][:200], stages=[(s["name"], s["outcome"]) for s in r["stages"]]))
+    # temporal programs: the overlap family of MC_TemporalGen (one atom stated over several overlapping / nested / adjacent
+    # intervals + one rule), every order of the stated facts when there are <= 4 of them
+    tcp = os.path.join(ctx.work, "fe_tcases.ndjson")
+    g = ctx.gen_cases("MC_TemporalGen", "MC_TemporalGen_overlap_sim.cfg", tcp, simulate=dict(num=400 if quick else 4000, depth=10), idprefix="tp-")
+    p = os.path.join(ctx.work, "fe_temporal.ndjson")
+    ctx.run_vh(["ttext", "--in", tcp, "--out", p])
+    ctx.notes.setdefault("generators", {})["temporal"] = dict(cases=g["cases"], texts=sum(1 for _ in open(p)))
+    res = process(ctx, p, "temporal")
+    for r in list(res.values())[:1]:
+        ctx.add_sample(dict(kind=r["kind"], input=r["input"][:300], stages=[(s["name"], s["outcome"]) for s in r["stages"]]))
     ctx.exhaustive = not quick
     ctx.assumptions += ["bounded-exhaustive over a symbolic token alphabet and single edits, not coverage-guided byte fuzzing: inputs whose trigger needs a long specific byte pattern are out of reach",
                         "every stage runs under recover() with a 20 s deadline; batches run in child processes with a 6 GB address-space limit; a batch that dies is bisected to the single input"]
     return ctx.finish("exploration",
-                      "inputs generated by TLC from Frontend.tla: all token strings of length <= 2 (quick) / 3 (thorough) over 58 tokens; delete/duplicate/swap/truncate/replace (28 replacement tokens) at 30 positions of 35 seed programs; 13 kinds of line corruption at 30 positions of 14 seed fact files; declarations assembled from 21 descriptor lists x 33 bound types x 9 uses x arity 0-2 (DeclGen.tla); one-rule programs with wrong-arity constructor heads and 15 ill-formed transforms, and every body of <= 3 literals incl. negated built-ins (VocabBad); the C04 clause shapes. "
+                      "inputs generated by TLC from Frontend.tla: all token strings of length <= 2 (quick) / 3 (thorough) over 58 tokens; delete/duplicate/swap/truncate/replace (28 replacement tokens) at 30 positions of 35 seed programs; 13 kinds of line corruption at 30 positions of 14 seed fact files; declarations assembled from 21 descriptor lists x 33 bound types x 9 uses x arity 0-2 (DeclGen.tla); one-rule programs with wrong-arity constructor heads and 15 ill-formed transforms, and every body of <= 3 literals incl. negated built-ins (VocabBad); the C04 clause shapes; temporal programs of the overlap family in every order of their stated facts. "
                       "Each input goes through parse.Unit/Clause/Term/BaseTerm/Atom/LiteralOrFormula/PredicateName, AnalyzeAndCheckBounds, EvalProgram under a fact limit, or ReadInto and the lazy store; non-trivial = input that got past the parser (or the .sc header); distinct by input text")
 
 
